@@ -162,9 +162,13 @@ func (c *Ctx) callIsPure(cc *ssa.CallCommon) bool {
 
 // call executes a call instruction: builtin semantics, contract application or havoc.
 func (c *Ctx) call(in ssa.Instruction, cc *ssa.CallCommon, st *State, deferred bool) *Val {
+	var pre *State
+	if len(c.activeRules) > 0 {
+		pre = st.clone()
+	}
 	res := c.callInner(in, cc, st, deferred)
 	if !deferred && len(c.activeRules) > 0 && c.curReach != "false" {
-		c.applyRuleEnsures(cc, res, st)
+		c.applyRuleEnsures(cc, res, st, pre)
 	}
 	return res
 }
